@@ -253,5 +253,15 @@ PROPS['C02'] = dict(
       + [U('coh_rp2_p%d' % p, 'C02_cohomology.cpp', ['VP_N=6', 'VP_P=%d' % p, 'VP_VMAX=2', 'VP_RP2'], weight=6) for p in (2, 3)]
       + [U('coh_n4_v2_p3', 'C02_cohomology.cpp', ['VP_N=4', 'VP_P=3', 'VP_VMAX=2'], tiers=['thorough'], weight=40), U('coh_n3_p11', 'C02_cohomology.cpp', ['VP_N=3', 'VP_P=11', 'VP_VMAX=2'], tiers=['thorough'], weight=10), U('coh_n3_p46337', 'C02_cohomology.cpp', ['VP_N=3', 'VP_P=46337', 'VP_VMAX=1'], tiers=['thorough'], weight=40)])
 
+# ------------------------------------------------------------------------------------------------ C07
+PROPS['C07'] = dict(
+  explanation='Bounded symbolic execution of the real Zigzag_persistence and Filtered_zigzag_persistence (chain matrix with vine swaps, surjective/injective diamonds; clang IR of the headers in /repo) over symbolic arrow sequences (insertion of a cell whose boundary is present, removal of a cell without coface, identity). Per arrow an in-harness oracle (dense GF(2) Betti numbers) fixes whether a class is born or dies, its dimension and index; each streamed finite interval must close an open birth of that dimension at that arrow, the open intervals must be exactly the unclosed births, insertion-only sequences must reproduce the pairing of an independent boundary-matrix reduction, and the filtered front-end must report the same intervals translated to monotone symbolic filtration values minus the zero-length ones.',
+  bounds=dict(quick='all admissible sequences of k=6 arrows over the faces of the triangle; k=5 with the filtered front-end; k=5 on the tetrahedron', thorough='k=8 (triangle), k=7 (tetrahedron)'),
+  outside=['which open birth of the right dimension a death is paired with, for sequences containing removals (no independent zigzag decomposition oracle in the harness: the clause is decided for insertion-only sequences and for all dimensions/indices/counts otherwise)', 'sequences longer than k', 'column types other than the default of the class'],
+  units=[U('zz_tri_k6', 'C07_zigzag.cpp', ['VP_K=6', 'VP_NV=3'], cflags=['-U__SSE2__'], weight=10, must_reach=['end', 'insert', 'remove', 'identity', 'insert-only']),
+         U('zz_tri_k5_filtered', 'C07_zigzag.cpp', ['VP_K=5', 'VP_NV=3', 'VP_FILTERED'], cflags=['-U__SSE2__'], weight=10, must_reach=['end', 'insert', 'remove']),
+         U('zz_tet_k5', 'C07_zigzag.cpp', ['VP_K=5', 'VP_NV=4'], cflags=['-U__SSE2__'], weight=10, must_reach=['end', 'insert', 'remove']),
+         U('zz_tri_k8', 'C07_zigzag.cpp', ['VP_K=8', 'VP_NV=3'], cflags=['-U__SSE2__'], tiers=['thorough'], weight=40, must_reach=['end']), U('zz_tet_k7', 'C07_zigzag.cpp', ['VP_K=7', 'VP_NV=4'], cflags=['-U__SSE2__'], tiers=['thorough'], weight=40, must_reach=['end'])])
+
 NOT_APPLICABLE = {}
 NOTES = 'Clauses outside every claim: real thread schedules/TBB execution (engine is sequential), iostream text I/O, GMP arbitrary precision, Eigen-based Coxeter point location under general affine maps, SIMD paths of boost::unordered_flat_map (compiled with -U__SSE2__), allocation failure, inputs beyond the stated bounds.'
